@@ -133,7 +133,8 @@ def gen_programs(rng, P, mods, n_random, depth3):
         ids = itertools.count()
         mod = mods[k % len(mods)]
         depth = 3 if k < depth3 else 2
-        progs.append({"kind": "nested", "mod": mod, "call": gen_call(rng, P, mod, depth, top_scope, ids, width=1 if depth == 3 else None)})
+        progs.append({"kind": "nested", "mod": mod, "call": gen_call(rng, P, mod, depth, top_scope, ids, width=1 if depth == 3 else None),
+                      "ambient": rng.choice(P.AMBIENTS[1:]) if rng.random() < 0.4 else None})
     return progs
 
 
@@ -155,6 +156,17 @@ def all_calls(call):
 
 def tuplify(x):
     return tuple(tuplify(y) for y in x) if isinstance(x, (list, tuple)) else x
+
+
+def P_ambient(env, name, op):
+    """the scoped setting under which the outermost constructor is called (harness.props.c19.ambient_context)"""
+    import contextlib
+
+    if name is None:
+        return contextlib.nullcontext()
+    from harness.props import c19
+
+    return c19.ambient_context(env, name, op)
 
 
 # ----------------------------------------------------------------------------- running on the real code
@@ -240,7 +252,7 @@ def run_program(env, prog, steps=STEPS):
 
     outs = None
     try:
-        with warnings.catch_warnings():
+        with warnings.catch_warnings(), P_ambient(env, prog.get("ambient"), op):
             warnings.simplefilter("ignore")
             outs = do_call(prog["call"])
         obs["result"] = ("ok", len(outs))
